@@ -150,13 +150,17 @@ func skeleton(fd *ast.FuncDecl) []string {
 	return out
 }
 
-func main() { ex.Main([]string{"VxfwCases.lean"}, gen) }
+func main() { ex.Main([]string{"VxfwCases.lean", "VxfwBodies.lean"}, gen) }
 
 func gen(c *ex.Ctx) {
 	fset = c.Fset
 	f := c.Parse("vxfw/vxfw.go")
 	if f == nil {
 		return
+	}
+	// the bodies of the dispatchers as syntax (a second parse: the translation renames identifiers in place)
+	if f2 := c.Parse("vxfw/vxfw.go"); f2 != nil {
+		genBodies(c, f2)
 	}
 	var b strings.Builder
 	b.WriteString("namespace VaxisModel.Gen.VxfwCases\n\n")
